@@ -125,6 +125,43 @@ func mkHeader(parent common.Hash, number uint, id int, mark int) *types.Header {
 	return h
 }
 
+// badDigestKinds are the additions that pass the parent / duplicate / number
+// checks of AddBlock and must be refused by the slot-type check alone.
+var badDigestKinds = []string{"no-digest", "first-digest-not-preruntime", "malformed-predigest"}
+
+// mkBadDigestHeader builds a child of parent whose digest types.IsPrimary refuses.
+func mkBadDigestHeader(kind string, parent common.Hash, number uint, id int) *types.Header {
+	d := types.NewDigest()
+	switch kind {
+	case "no-digest":
+	case "first-digest-not-preruntime":
+		// a seal first, the (valid, primary) BABE pre-digest only second
+		if err := d.Add(types.SealDigest{ConsensusEngineID: types.BabeEngineID, Data: bytes.Repeat([]byte{byte(id)}, 64)}); err != nil {
+			panic(err)
+		}
+		good := babeDigest(markPrimary, id-id%2, number) // even label: no seal appended
+		d = append(d, good...)
+	case "malformed-predigest":
+		data := []byte{0x09, 0xff, byte(id)} // no such BABE pre-digest variant
+		if id%2 == 1 {
+			data = []byte{0x00}
+		}
+		if err := d.Add(types.PreRuntimeDigest{ConsensusEngineID: types.BabeEngineID, Data: data}); err != nil {
+			panic(err)
+		}
+	default:
+		panic("generator error: bad digest kind " + kind)
+	}
+	h := &types.Header{
+		ParentHash: parent,
+		Number:     number,
+		StateRoot:  common.Hash{byte(id), byte(id >> 8), byte(id >> 16), 0xbd},
+		Digest:     d,
+	}
+	h.Hash()
+	return h
+}
+
 type env struct {
 	c    *vcommon.Case
 	h    *hist
@@ -140,6 +177,7 @@ type env struct {
 	checkAdds  bool // run the oracles after add operations too (always after prune / bad)
 	pairBudget int  // max ordered pairs per structural check (0 = all)
 	viol       int
+	refused    int // additions refused so far in this history
 	lastBest   common.Hash
 	probeCopy  bool   // also look at DeepCopy().BestBlockHash() (observation counter only, see NOTES.md)
 	note       string // context added to witnesses (e.g. which insertion order of which tree)
@@ -169,6 +207,14 @@ func (e *env) name(h common.Hash) string {
 		}
 	}
 	return "?" + h.Short()
+}
+
+// idOf returns the label of a live block (the root's label if h is not in the model).
+func (e *env) idOf(h common.Hash) int {
+	if b := e.m.get(h); b != nil {
+		return b.id
+	}
+	return e.m.root.id
 }
 
 func (e *env) names(hs []common.Hash) string {
@@ -379,6 +425,9 @@ func (e *env) doPrune(o op) {
 	}
 	got := e.bt.Prune(f.hash)
 	e.c.Count("prunes", 1)
+	if e.refused > 0 {
+		e.c.Count("prunes_after_refused_add", 1)
+	}
 	e.c.Count("pruned_blocks", len(want))
 	if len(want) == 0 {
 		e.c.Count("prunes_nothing_to_prune", 1)
@@ -393,32 +442,80 @@ func (e *env) doPrune(o op) {
 	}
 }
 
+// snapshot is the cheap part of the observable state, taken around every
+// addition that must be refused (the full comparison with the model follows in observe).
+func (e *env) snapshot() string {
+	all := e.bt.GetAllBlocks()
+	ls := e.bt.Leaves()
+	return fmt.Sprintf("blocks{%s} leaves{%s} best %s", e.names(all), e.names(ls), e.name(e.bt.BestBlockHash()))
+}
+
+// refusedAdd calls AddBlock with a header that must be refused and checks that
+// the refusal left no trace: an addition that returned an error is not an added block.
+func (e *env) refusedAdd(what string, hd *types.Header, label int, wantErr error) {
+	before := e.snapshot()
+	err := e.bt.AddBlock(hd, arrivalSet[0])
+	e.c.Eval(2)
+	switch {
+	case err == nil:
+		e.violation("bad-add-accepted", fmt.Sprintf("AddBlock %s returned nil", what))
+	case wantErr != nil && !errors.Is(err, wantErr):
+		e.violation("bad-add-accepted", fmt.Sprintf("AddBlock %s = %v, want %v", what, err, wantErr))
+	}
+	if _, known := e.byID[label]; !known && err != nil {
+		// remember the refused block: it must stay unknown to every query and to later Prunes
+		rb := &mBlock{id: label, hash: hd.Hash(), number: hd.Number}
+		e.byID[label] = rb
+		e.dead = append(e.dead, rb)
+		e.refused++
+		e.c.Count("refused_blocks_tracked", 1)
+	}
+	if after := e.snapshot(); err != nil && after != before {
+		e.violation("refused-add-changed-tree", fmt.Sprintf("AddBlock %s returned %q but the tree changed: before %s; after %s", what, err, before, after))
+	}
+	if err != nil {
+		e.c.Count("refused_adds", 1)
+	}
+}
+
 func (e *env) doBad(o op) {
 	e.c.Count("bad_"+o.Bad, 1)
 	e.c.Eval(1)
 	switch o.Bad {
+	case "no-digest", "first-digest-not-preruntime", "malformed-predigest":
+		p := e.byID[o.Parent]
+		if p == nil || e.m.get(p.hash) != p {
+			panic(fmt.Sprintf("generator error: parent %d of refused add not live at step %d", o.Parent, e.step))
+		}
+		isLeaf := true
+		for _, x := range e.m.live {
+			if x != e.m.root && x.parent == p {
+				isLeaf = false
+			}
+		}
+		if isLeaf {
+			e.c.Count("refused_adds_below_leaf", 1)
+		}
+		hd := mkBadDigestHeader(o.Bad, p.hash, p.number+1, 100000+o.ID)
+		e.refusedAdd(fmt.Sprintf("of a %s header below live #%d", o.Bad, o.Parent), hd, 100000+o.ID, nil)
 	case "unknown-parent":
 		hd := mkHeader(common.Hash{0xde, 0xad, byte(o.ID)}, e.m.root.number+1, 100000+o.ID, o.Mark)
-		if err := e.bt.AddBlock(hd, arrivalSet[0]); !errors.Is(err, blocktree.ErrParentNotFound) {
-			e.violation("bad-add-accepted", fmt.Sprintf("AddBlock with unknown parent = %v, want ErrParentNotFound", err))
-		}
+		e.refusedAdd("with unknown parent", hd, 100000+o.ID, blocktree.ErrParentNotFound)
 	case "dead-parent":
 		p := e.byID[o.Parent]
 		hd := mkHeader(p.hash, p.number+1, 100000+o.ID, o.Mark)
-		if err := e.bt.AddBlock(hd, arrivalSet[0]); !errors.Is(err, blocktree.ErrParentNotFound) {
-			e.violation("bad-add-accepted", fmt.Sprintf("AddBlock below #%d (no longer in the tree) = %v, want ErrParentNotFound", o.Parent, err))
-		}
+		e.refusedAdd(fmt.Sprintf("below #%d (no longer in the tree)", o.Parent), hd, 100000+o.ID, blocktree.ErrParentNotFound)
 	case "duplicate":
 		cp := *e.hdr[o.ID] // the very same header again
-		if err := e.bt.AddBlock(&cp, arrivalSet[2]); !errors.Is(err, blocktree.ErrBlockExists) {
-			e.violation("bad-add-accepted", fmt.Sprintf("AddBlock of existing #%d = %v, want ErrBlockExists", o.ID, err))
-		}
+		e.refusedAdd(fmt.Sprintf("of existing #%d", o.ID), &cp, o.ID, blocktree.ErrBlockExists)
 	case "wrong-number":
 		p := e.byID[o.Parent]
-		hd := mkHeader(p.hash, p.number+2, 100000+o.ID, o.Mark)
-		if err := e.bt.AddBlock(hd, arrivalSet[0]); err == nil {
-			e.violation("bad-add-accepted", fmt.Sprintf("AddBlock below #%d with number parent+2 accepted", o.Parent))
+		num := p.number + 2
+		if o.ID%2 == 1 {
+			num = p.number // same number as the parent
 		}
+		hd := mkHeader(p.hash, num, 100000+o.ID, o.Mark)
+		e.refusedAdd(fmt.Sprintf("below #%d with number %d (parent has %d)", o.Parent, num, p.number), hd, 100000+o.ID, nil)
 	case "prune-unknown":
 		if got := e.bt.Prune(common.Hash{0xde, 0xad, byte(o.ID)}); len(got) != 0 {
 			e.violation("Prune", fmt.Sprintf("Prune(unknown hash) reported %s", e.names(got)))
@@ -627,20 +724,23 @@ func (e *env) checkStructure() {
 	if nd := len(e.dead); nd > 0 {
 		leaf := m.leaves()[0]
 		for k := 0; k < 3 && k < nd; k++ {
-			d := e.dead[(e.step+k*7)%nd]
+			d := e.dead[nd-1] // the block that left (or was refused) most recently, then two rotating ones
+			if k > 0 {
+				d = e.dead[(e.step+k*7)%nd]
+			}
 			c.Count("dead_block_probes", 1)
 			c.Eval(6)
 			if got, err := bt.GetAllDescendants(d.hash); err == nil {
-				e.violation("dead-block-known", fmt.Sprintf("GetAllDescendants(#%d) = {%s} for a block that left the tree", d.id, e.names(got)))
+				e.violation("dead-block-known", fmt.Sprintf("GetAllDescendants(#%d) = {%s} for a block that is not in the tree", d.id, e.names(got)))
 			}
 			if is, err := bt.IsDescendantOf(m.root.hash, d.hash); err == nil {
-				e.violation("dead-block-known", fmt.Sprintf("IsDescendantOf(root, #%d) = %v, nil for a block that left the tree", d.id, is))
+				e.violation("dead-block-known", fmt.Sprintf("IsDescendantOf(root, #%d) = %v, nil for a block that is not in the tree", d.id, is))
 			}
 			if l, err := bt.LowestCommonAncestor(d.hash, leaf.hash); err == nil {
-				e.violation("dead-block-known", fmt.Sprintf("LowestCommonAncestor(#%d, leaf) = %s for a block that left the tree", d.id, e.name(l)))
+				e.violation("dead-block-known", fmt.Sprintf("LowestCommonAncestor(#%d, leaf) = %s for a block that is not in the tree", d.id, e.name(l)))
 			}
 			if got, err := bt.RangeInMemory(d.hash, leaf.hash); err == nil {
-				e.violation("dead-block-known", fmt.Sprintf("RangeInMemory(#%d, leaf) = %s for a block that left the tree", d.id, e.pathStr(got)))
+				e.violation("dead-block-known", fmt.Sprintf("RangeInMemory(#%d, leaf) = %s for a block that is not in the tree", d.id, e.pathStr(got)))
 			}
 			if got, err := bt.Range(leaf.hash, d.hash); err == nil {
 				e.violation("dead-block-known", fmt.Sprintf("Range(leaf, #%d) = %s for an end block that left the tree", d.id, e.pathStr(got)))
